@@ -1010,3 +1010,101 @@ PROPS["C19"] = Prop(
     trusted=["serde derive expansion and serde_json's lexer / printer are trusted at the data-model level (C19 is partial there: the JSON side is "
              "carried by the round-trip runs, the postcard side by theorems)", "postcard 1.0.8 wire format as modelled in Model/Serde.v"],
 )
+
+
+# ------------------------------------------------------------------ C11 / C10 (stream side): scheduled readers
+F_SCHED = Family("sched", "Run.RunSched", "run_sched", "holds_sched", lambda a, o: len(a) > 10)
+F_SCHED.shard_cases = 40
+
+
+def frags_from_cuts(cuts, L):
+    pts = sorted(set(c for c in cuts if 0 < c < L))
+    out, prev = [], 0
+    for c in pts:
+        out.append(c - prev)
+        prev = c
+    return out
+
+
+def sched_case(kind, sd, size, bs, driver, fail, cut, q, evs):
+    fk, fkind = fail if fail else (0, 0)
+    flat = []
+    for e in evs:
+        flat += list(e)
+    return ("sched", [kind, sd, size, bs, driver, fk, fkind, cut, len(q)] + list(q) + flat)
+
+
+def gen_sched(tier, rng, with_faults):
+    cases = []
+    sizes = [1, 1025, 2049, 3 * 1024, 5 * 1024 + 7] if tier == "quick" else [0, 1, 1024, 1025, 2049, 3 * 1024, 4 * 1024 + 1, 5 * 1024 + 7, 8 * 1024 + 1]
+    for size in sizes:
+        n = nchunks(size)
+        for bs in range(0, 3):
+            for q in std_queries(n, rng, 1)[: (3 if tier == "quick" else 10)]:
+                if not q:
+                    continue
+                lay = honest_layout(size, bs, q)
+                L = sum(x[2] for x in lay)
+                bounds, off = [], 0
+                for (_, _, nb) in lay:
+                    off += nb
+                    bounds.append(off)
+                cand = sorted(set(b + d for b in bounds for d in (-1, 0, 1) if 0 < b + d < L))
+                sd = seed(rng)
+                scheds = []
+                # cut sets around item boundaries: all singletons and pairs for short streams, random subsets otherwise
+                import itertools
+                subsets = [[c] for c in cand] + ([list(p) for p in itertools.combinations(cand, 2)] if len(lay) <= 6 else [])
+                subsets += [sorted(rng.sample(cand, rng.randrange(1, len(cand) + 1))) for _ in range(6)] if cand else []
+                if tier == "quick":
+                    subsets = rng.sample(subsets, min(len(subsets), 6))
+                for sub in subsets:
+                    scheds.append([(0, f) for f in frags_from_cuts(sub, L)])
+                scheds.append([(0, 1)] * min(L, 700))                       # one byte at a time
+                scheds.append([(0, rng.randrange(1, 100)) for _ in range(60)])  # arbitrary short reads
+                scheds.append([(0, 64), (0, 1), (0, 63), (0, 1024)] * 10)
+                for sc in scheds:
+                    for driver in (0, 1):
+                        evs = list(sc)
+                        # Pending between polls (async) / Interrupted anywhere (sync)
+                        mixed = []
+                        for e in evs:
+                            if driver == 1 and rng.random() < 0.4:
+                                mixed.append((2, 0))
+                            if driver == 0 and rng.random() < 0.2:
+                                mixed.append((1, 0))
+                            mixed.append(e)
+                        for cut in (0, 0, rng.randrange(1, L + 1) if L else 0):
+                            cases.append(sched_case(0, sd, size, bs, driver, None, cut, q, mixed))
+                if with_faults:
+                    # the k-th read of the stream reader fails, for every k up to the fault-free call count (sync read sizes are exact)
+                    for k in range(0, 2 * len(lay) + 3):
+                        for kindc in ((0, 1, 2, 3) if tier == "thorough" else (rng.randrange(0, 4),)):
+                            sc = rng.choice(scheds)
+                            cases.append(sched_case(0, sd, size, bs, 0, (k + 1, kindc), 0, q, sc))
+        # outboard creation through a scheduled data reader
+        for bs in range(0, 3):
+            sd = seed(rng)
+            for _ in range(4 if tier == "quick" else 12):
+                sc = [(0, rng.choice([1, 7, 64, 1000, 1023, 1024, 1025, 3000]))] * rng.randrange(1, 40)
+                mixed = []
+                for e in sc:
+                    if rng.random() < 0.2:
+                        mixed.append((1, 0))
+                    mixed.append(e)
+                cases.append(sched_case(rng.randrange(0, 3), sd, size, bs, 4, None, 0, [], mixed))
+                cases.append(sched_case(0, sd, size, bs, 4, None, rng.randrange(1, size + 1) if size else 0, [], mixed))
+                if with_faults:
+                    cases.append(sched_case(0, sd, size, bs, 4, (rng.randrange(1, 2 * n + 3), rng.randrange(0, 4)), 0, [], mixed))
+    return cases
+
+
+PROPS["C11"] = Prop(
+    [F_SCHED], lambda tier, rng: gen_sched(tier, rng, False),
+    "sched: honest and truncated streams under readers that fragment at cut sets around every item boundary (all singletons and pairs for streams "
+    "of <= 6 items, random subsets beyond), one byte at a time, arbitrary short reads, with Interrupted returns (sync Read) and Pending polls between "
+    "reads (tokio AsyncRead behind TokioStreamReader); sync DecodeResponseIter, fsm ResponseDecoder, and sync outboard_post_order reading the blob "
+    "through such a reader. Compared with the unfragmented run (oracle) and with the model's read loops. non-trivial = at least one schedule event",
+    trusted=["std Read::read_exact, tokio read_exact, iroh-io 0.6.2 TokioStreamReader (take + read_to_end) as transcribed in Model/IOSched.v",
+             "poll-level suspension is exhibited by the harness only: in the model an await is 'poll until ready' (C11 is partial there)"],
+    assumptions=DEC_ASSUME)
